@@ -752,56 +752,66 @@ func c08GenObs(r *Rand) c08Obs {
 	return c08Obs{T: "log", Lg: c08GenLogger(r, g), Act: c08GenAct(r, g, true), Prebuilt: r.Chance(1, 3)}
 }
 
-// targeted histories for each piece of pooled state (always emitted first)
+// targeted histories (always emitted first): every kind of operation that leaves a particular pooled object behind —
+// as the LAST object put, so that a pinned goroutine gets exactly it back — followed directly by every kind of observed
+// call.
 func c08Targeted(r *Rand, emit func(op any)) {
 	g := &encGen{r: r, depth: 2}
 	g.config(false)
 	str := func(s string) string { return hx([]byte(s)) }
-	plainLg := func(console bool) *c08Logger {
-		return &c08Logger{Console: console, Stack: 99, Fields: []encField{}}
-	}
-	act := func(a string, lvl int, msg string) *c08Act {
-		return &c08Act{A: a, Lvl: lvl, Msg: str(msg), Fields: []encField{}, Depth: 1}
+	lgr := func(console bool) *c08Logger { return &c08Logger{Console: console, Stack: 99, Fields: []encField{}} }
+	act := func(a string, lvl int, msg string, fs ...encField) *c08Act {
+		if fs == nil {
+			fs = []encField{}
+		}
+		return &c08Act{A: a, Lvl: lvl, Msg: str(msg), Fields: fs, Depth: 1}
 	}
 	jr := hx([]byte(`{"a":[1,2,3]}`))
 	reflField := encField{F: "refl", Key: str("r"), Calls: []encCall{}, J: &jr}
 	nsField := encField{F: "ns", Key: str("ns"), Calls: []encCall{}}
-	for _, console := range []bool{false, true} {
-		for _, prebuilt := range []bool{false, true} {
-			obsLg := plainLg(console)
-			obs := c08Obs{T: "log", Lg: obsLg, Act: &c08Act{A: "log", Lvl: 0, Msg: str("zvOBS plain"), Fields: []encField{reflField}, Depth: 1}, Prebuilt: prebuilt}
-			// reflection buffers, dangling namespaces, panicking fields, huge entries
-			emit(c08Op{K: "hist", Mode: "seq", Obs: obs, Hist: []c08Hist{
-				{H: "log", Lg: plainLg(false), Act: &c08Act{A: "log", Lvl: 0, Msg: str("h"), Fields: []encField{reflField, nsField, reflField}, Depth: 1}, Calls: []encCall{}},
-				{H: "panicobj", Console: true, Calls: []encCall{{M: "ns", Key: str("x"), Calls: []encCall{}}, {M: "refl", Key: str("y"), J: &jr, Calls: []encCall{}}}},
-				{H: "panicobj", Console: false, Calls: []encCall{{M: "ns", Key: str("x"), Calls: []encCall{}}}},
-				{H: "huge", N: 70000, Console: console, Calls: []encCall{}},
-			}})
-			// checked entries: dropped, written, with hooks, with error outputs, with stacks; then a core-level check
-			hookLg := &c08Logger{Console: false, Stack: 0, Caller: true, Hook: "panic", Fields: []encField{}, Fail: true}
-			emit(c08Op{K: "hist", Mode: "seq", Obs: c08Obs{T: "log", Lg: &c08Logger{Console: console, Stack: 99, Fields: []encField{}, Fail: true},
-				Act: act("corecheck", 0, "zvOBS core-level"), Prebuilt: prebuilt}, Hist: []c08Hist{
-				{H: "log", Lg: hookLg, Act: act("panic", 0, "with a hook that returns"), Calls: []encCall{}},
-				{H: "log", Lg: hookLg, Act: act("checkdrop", 2, "dropped"), Calls: []encCall{}},
-				{H: "log", Lg: hookLg, Act: act("checkwrite", 2, "written"), Calls: []encCall{}},
-			}})
-			// stack captures: a deep stack grows the pooled storage, then shallow captures
-			stLg := &c08Logger{Console: console, Stack: -1, Caller: true, Fields: []encField{}}
-			emit(c08Op{K: "hist", Mode: "seq", Obs: c08Obs{T: "log", Lg: stLg, Act: act("stackfield", 0, "zvOBS stack"), Prebuilt: prebuilt}, Hist: []c08Hist{
-				{H: "log", Lg: stLg, Act: &c08Act{A: "deep", Lvl: 0, Msg: str("deep"), Fields: []encField{}, Depth: 300}, Calls: []encCall{}},
-				{H: "log", Lg: &c08Logger{Caller: true, Stack: 99, Fields: []encField{}}, Act: act("log", 0, "first frame only"), Calls: []encCall{}},
-			}, Sub: !prebuilt})
-		}
-	}
-	// error arrays of both packages (zap.Errors and error groups), nested
 	e := g.errv(2)
 	e.Group = true
 	e.Causes = []encErrV{g.errv(1), g.errv(1)}
 	ok1 := str("e1")
 	errsField := encField{F: "errors", Key: str("errs"), Calls: []encCall{}, Errs: []encErrV{e, {O: encOutcome{OK: &ok1}, Causes: []encErrV{}}}}
 	errField := encField{F: "error", Key: str("err"), Calls: []encCall{}, E: &e}
-	emit(c08Op{K: "hist", Mode: "seq", Sub: true, Obs: c08Obs{T: "log", Lg: plainLg(false), Act: &c08Act{A: "log", Lvl: 2, Msg: str("zvOBS errors"), Fields: []encField{errsField, errField}, Depth: 1}},
-		Hist: []c08Hist{{H: "log", Lg: plainLg(true), Act: &c08Act{A: "log", Lvl: 2, Msg: str("h"), Fields: []encField{errField, errsField}, Depth: 1}, Calls: []encCall{}}}})
+	openCalls := []encCall{{M: "ns", Key: str("x"), Calls: []encCall{}}, {M: "refl", Key: str("y"), J: &jr, Calls: []encCall{}}, {M: "ns", Key: str("z"), Calls: []encCall{}}}
+	hookLg := &c08Logger{Stack: 0, Caller: true, Hook: "panic", Fields: []encField{}, Fail: true, Name: str("hist")}
+	allCols := &c08Logger{Console: true, Stack: 0, Caller: true, Fields: []encField{nsField}, Name: str("cols")}
+	lg := func(l *c08Logger, a *c08Act) c08Hist { return c08Hist{H: "log", Lg: l, Act: a, Calls: []encCall{}} }
+	dirtiers := [][]c08Hist{
+		{{H: "panicobj", Console: true, Calls: openCalls}},
+		{{H: "panicobj", Console: false, Calls: openCalls}},
+		{lg(lgr(false), act("log", 0, "h", reflField, nsField, reflField))},
+		{lg(lgr(true), act("log", 0, "h", reflField, nsField, reflField))},
+		{{H: "huge", N: 70000, Console: false, Calls: []encCall{}}},
+		{{H: "huge", N: 70000, Console: true, Calls: []encCall{}}},
+		{lg(hookLg, act("panic", 0, "a hook that returns"))},
+		{lg(hookLg, act("checkwrite", 2, "written, sink fails"))},
+		{lg(hookLg, act("checkdrop", 2, "dropped")), lg(hookLg, act("log", 2, "then written"))},
+		{lg(&c08Logger{Stack: -1, Caller: true, Fields: []encField{}}, &c08Act{A: "deep", Lvl: 0, Msg: str("deep"), Fields: []encField{}, Depth: 300})},
+		{lg(lgr(false), act("log", 2, "h", errField, errsField)), lg(lgr(true), act("log", 2, "h", errsField, errField))},
+		{lg(allCols, act("log", 2, "every column"))},
+	}
+	observers := []c08Obs{
+		{T: "log", Lg: lgr(false), Act: act("log", 0, "zvOBS json", reflField, errsField)},
+		{T: "log", Lg: lgr(true), Act: act("log", 0, "zvOBS console", reflField, errField)},
+		{T: "log", Lg: &c08Logger{Stack: 99, Fields: []encField{}, Fail: true}, Act: act("corecheck", 0, "zvOBS core-level, sink fails")},
+		{T: "log", Lg: &c08Logger{Console: true, Stack: -1, Caller: true, Fields: []encField{}, Name: str("obs")}, Act: act("stackfield", 0, "zvOBS stacks")},
+		{T: "log", Lg: &c08Logger{Caller: true, Stack: 99, Fields: []encField{}}, Act: act("with", 1, "zvOBS with", nsField, reflField)},
+	}
+	for di, d := range dirtiers {
+		for oi, o := range observers {
+			o.Prebuilt = (di+oi)%3 == 0
+			emit(c08Op{K: "hist", Mode: "seq", Sub: (di+oi)%7 == 0, Obs: o, Hist: d})
+		}
+		for k := 0; k < 4; k++ {
+			op := c08OneEncOp(r, k%2 == 1, 20, 0, 3, 6)
+			op.Ent.Msg = hx(append([]byte("zvOBS "), unhx(op.Ent.Msg)...))
+			op.Reentrant = k >= 2
+			emit(c08Op{K: "hist", Mode: "seq", Obs: c08Obs{T: "enc", Op: op, Prebuilt: k == 3 && di%2 == 0}, Hist: append(append([]c08Hist{}, d...), d...)})
+		}
+	}
 }
 
 func c08Gen(r *Rand, tier string, emit func(op any)) {
